@@ -25,6 +25,11 @@ def _m(w):
     return (1 << w) - 1
 
 
+def COOP(case):
+    """cycle from which all agents' schedules are cooperative (all ones)"""
+    return 200 + len(case["ops"]) * 200
+
+
 def st_ops(draw, nb, window_bytes, base, n_max, full_strb_only=False):
     ops = []
     n = draw(st.integers(3, n_max))
@@ -121,7 +126,7 @@ def run_case(case):
         top.submodules.dut = axi.Wishbone2AXILite(wbi, ax, base_address=base)
         err_supported = True
         errf = (lambda a: err_lo is not None and (a - 0) % (1 << 32) >= err_lo and (a % (1 << 32)) < W)
-        slave = axil.AXILMemSlave(ax, wb.ByteMem(W, init), case["ss"], Q=case["Q"], wait_valid=case["wait_valid"], err=errf, garbage_seed=case["gs"])
+        slave = axil.AXILMemSlave(ax, wb.ByteMem(W, init), case["ss"], Q=case["Q"], wait_valid=case["wait_valid"], err=errf, garbage_seed=case["gs"], until=COOP(case))
         unit = 1 if case["wb_addressing"] == "word" else nb
         mops = []
         for o in case["ops"]:
@@ -130,7 +135,7 @@ def run_case(case):
         agents = [master, slave]
     else:
         ax = axi.AXILiteInterface(data_width=dw, address_width=32)
-        master = axil.AXILMaster(ax, case["ops"], case["ms"], K=case["K"], w_after_aw=case["w_after_aw"], garbage_seed=case["gm"])
+        master = axil.AXILMaster(ax, case["ops"], case["ms"], K=case["K"], w_after_aw=case["w_after_aw"], garbage_seed=case["gm"], until=COOP(case))
         agents = [master]
         if dut == "axil_sram":
             top.submodules.dut = axi.AXILiteSRAM(W, init=words(init, nb), bus=ax)
@@ -144,7 +149,7 @@ def run_case(case):
                 # the memory slave indexes words: feed it the word part of the byte address
                 pass
             go = bench.Schedule(case["go"] if bench.sched_has_one(case["go"]) else ["const", 1])
-            agents.append(bench.Driver(lambda t: {sm.go: go.bit(t)}))
+            agents.append(bench.Driver(lambda t: {sm.go: 1 if t >= COOP(case) else go.bit(t)}))
             wbmon = wb.WBMonitor(wbi, "axil2wb->wishbone")
             agents.append(wbmon)
             slave_wb = sm
@@ -166,11 +171,15 @@ def run_case(case):
             err_supported = True
             big = max(dw, sdw) // 8
             errf = (lambda a: err_lo is not None and a >= err_lo)
-            slave = axil.AXILMemSlave(axs, wb.ByteMem(W, init), case["ss"], Q=case["Q"], wait_valid=case["wait_valid"], err=errf, garbage_seed=case["gs"])
+            slave = axil.AXILMemSlave(axs, wb.ByteMem(W, init), case["ss"], Q=case["Q"], wait_valid=case["wait_valid"], err=errf, garbage_seed=case["gs"], until=COOP(case))
             agents.append(slave)
     if dut == "axil2wb" and case["wb_addressing"] == "byte":
         return skip("WBMemSlave models word addressing only")
-    limit = 200 + len(case["ops"]) * 200
+    # generated schedules run until COOP(case); afterwards every agent is cooperative, so a request that is still open at
+    # the limit is a hang of the DUT, not a slow schedule (the first thorough run met a 64->8 converter with R offered 3
+    # cycles in 34: 3 reads x 8 sub-reads needed more than the old fixed budget - false alarm, corrected)
+    ratio = max(case["dw"], case.get("dw_s", case["dw"])) // min(case["dw"], case.get("dw_s", case["dw"]))
+    limit = COOP(case) + len(case["ops"]) * (ratio * 12 + 40) + 200
     cyc = bench.run(top, agents, limit, stop=lambda t: master.finished())
     ctx = "%s dw=%d%s base=%#x K=%d Q=%d w_after_aw=%r wait_valid=%r" % (dut, dw, ("->%d" % case["dw_s"]) if "dw_s" in case else "", base,
                                                                           case["K"], case["Q"], case["w_after_aw"], case["wait_valid"])
